@@ -138,3 +138,31 @@ Proof.
   - intros i c f b s H. simpl in H. intuition (try congruence); repeat match goal with E : (_, _, _, _, _) = _ |- _ => injection E as <- <- <- <- <- end; try lia; try discriminate.
   - vm_compute. reflexivity.
 Qed.
+
+(* ---------- when the vector arises from real play of the engine ---------- *)
+(* in every reachable state a folded player has at most as much in the pot (pot + wager) as some player
+   still in the hand: the player who has put in the most has never folded *)
+From PF Require Import ModelGame ProofsInv ProofsResult ProofsTop.
+Theorem C02_engine_folded_is_covered :
+  forall c deck g ops,
+    cfg_ok c -> length deck = length (c_deck c) -> create c deck = (g, Ok) ->
+    let s := run g ops in
+    forall i, (i < nplayers s)%nat -> p_fold (get_p s i) = true ->
+      exists k, (k < nplayers s)%nat /\ p_fold (get_p s k) = false /\
+                p_pot (get_p s i) + p_wager (get_p s i) <= p_pot (get_p s k) + p_wager (get_p s k).
+Proof. exact folded_is_covered. Qed.
+Print Assumptions C02_engine_folded_is_covered.
+
+(* hence in the result recorded by the engine a folded player wins nothing: he loses exactly what he put in
+   (given that the players still in the hand carry positive scores, as power.go gives any hand of two or
+   more cards; the harness checks this on every showdown) *)
+Theorem C02_engine_folded_player_wins_nothing :
+  forall c deck g ops,
+    cfg_ok c -> length deck = length (c_deck c) -> create c deck = (g, Ok) ->
+    let s := run g ops in
+    forall r, g_result s = Some r ->
+    (forall k, (k < nplayers s)%nat -> p_fold (get_p s k) = false -> 0 < score_of (get_p s k)) ->
+    forall i, (i < nplayers s)%nat -> p_fold (get_p s i) = true ->
+      chg (res_players r) (zn i) = - (p_pot (get_p s i) + p_wager (get_p s i)).
+Proof. exact folded_player_wins_nothing. Qed.
+Print Assumptions C02_engine_folded_player_wins_nothing.
